@@ -231,7 +231,13 @@ func (arch *Arch) Assembler_process_line(line []byte) (string, error) {
 			for i, op := range arch.Op {
 				if op.Op_get_name() == words[0] {
 					if result, err := op.Assembler(arch, words[1:]); err == nil {
-						return zeros_prefix(opbits, get_binary(i)) + result, nil
+						word := zeros_prefix(opbits, get_binary(i)) + result
+						// Every field is padded at least to its width and the word up to the ROM word:
+						// a different length means that an operand did not fit its field
+						if len(word) != arch.Max_word() {
+							return "", Prerror{"operand out of range (" + strconv.Itoa(len(word)) + " bits in a " + strconv.Itoa(arch.Max_word()) + " bits word), error processing " + op.Op_get_name()}
+						}
+						return word, nil
 					} else {
 						return "", Prerror{err.Error() + ", error processing " + op.Op_get_name()}
 					}
